@@ -246,6 +246,24 @@ Lemma pin_name_sources :
   /\ gbnf_parser_inferred_name = lit "INFERRED".
 Proof. vm_compute. repeat split; reflexivity. Qed.
 
+(* repo 61337a1: a META TYPE that is not a str names no schema -- same name as a missing TYPE *)
+Lemma pin_meta_type_nonstring : gbnf_meta_type_nonstring_is_unknown = true /\ gbnf_meta_type_nonstring_name = lit "UNKNOWN".
+Proof. vm_compute. split; reflexivity. Qed.
+
+Lemma meta_schema_name_total ty : exists n, meta_schema_name ty = Some n.
+Proof. destruct ty; eexists; reflexivity. Qed.
+
+Lemma meta_schema_name_cases t :
+  meta_schema_name MtAbsent = Some (lit "UNKNOWN") /\ meta_schema_name (MtStr t) = Some t
+  /\ meta_schema_name MtOther = Some (lit "UNKNOWN") /\ meta_schema_name MtOther = meta_schema_name MtAbsent.
+Proof. vm_compute. repeat split; reflexivity. Qed.
+
+(* before the guard a non-str TYPE gave no name (SchemaDefinition.name was the raw value: compile_schema raised) *)
+Lemma meta_schema_name_pre_guard t :
+  meta_schema_name_g false MtOther = None /\ meta_schema_name_g false (MtStr t) = Some t
+  /\ meta_schema_name_g false MtAbsent = Some (lit "UNKNOWN").
+Proof. vm_compute. repeat split; reflexivity. Qed.
+
 Lemma pin_names_escaped : gbnf_field_name_escaped = true /\ gbnf_schema_name_escaped = true.
 Proof. split; reflexivity. Qed.
 
@@ -266,6 +284,14 @@ Definition w_qr : str := [34;113;32;114;34].
 Definition w_aqbc : str := [97;34;98;92;99].
 Definition sch_named (n : str) (fs : list field) : schema := mkSchema n (map ascii_upper n) fs.
 Definition regress_schema : schema := sch_named w_aqbc [fld w_qr [CReq]; fld w_NAME [COpt; CEnum [[65]; [66]]]].
+
+(* the grammar compiled for a non-str TYPE: the schema named UNKNOWN -- well-formed with and without a field *)
+Example regress_nonstring_type_wf :
+  match meta_schema_name MtOther with
+  | Some n => wf_text (compile_schema (sch_named n [fld w_NAME [CReq]]) true) && wf_text (compile_schema (sch_named n []) true)
+  | None => false
+  end = true.
+Proof. vm_compute. reflexivity. Qed.
 
 (* both names at once, with and without envelope: in the safe class, and well-formed *)
 Example regress_escaped_names_wf :
